@@ -336,13 +336,107 @@ Fixpoint select_rows (i : Z) (keep : Z -> bool) (rows : list jval) : list jval :
                   else select_rows (i + 1) keep rows'
   end.
 
+(* ---- lang/define_index_tables.go ittIndex, column-name mode ----
+   jsonlines hands every parameter list with a non-digit byte to the table
+   indexer; a parameter that is not one of the special forms (`:N`, `N:`, `*N`,
+   `*c`) is a column NAME, looked up in the first row. So `[-1]` is a column
+   called "-1", not the last row. *)
+
+(* fmt.Sprint of a cell after json.Unmarshal into []any *)
+Definition sprint_cell (v : jval) : option bytes :=
+  match v with
+  | JNum z => Some (itoa z)
+  | JStr s => Some s
+  | JBool b => Some (bool_text b)
+  | JNull => Some [60; 110; 105; 108; 62]%N        (* <nil> *)
+  | _ => None
+  end.
+
+Fixpoint sprint_row (cells : list jval) : option (list bytes) :=
+  match cells with
+  | [] => Some []
+  | c :: r => match sprint_cell c, sprint_row r with
+              | Some x, Some xs => Some (x :: xs)
+              | _, _ => None
+              end
+  end.
+
+Fixpoint table_rows (rows : list jval) : option (list (list bytes)) :=
+  match rows with
+  | [] => Some []
+  | JArr cells :: r => match sprint_row cells, table_rows r with
+                       | Some x, Some xs => Some (x :: xs)
+                       | _, _ => None
+                       end
+  | _ :: _ => None
+  end.
+
+(* headings[recs[i]] = i + 1, later duplicates overwrite earlier ones; 0 = absent *)
+Fixpoint heading_col (name : bytes) (hs : list bytes) (i : nat) (found : nat) : nat :=
+  match hs with
+  | [] => found
+  | h :: r => heading_col name r (S i) (if bytes_eqb h name then S i else found)
+  end.
+
+Definition blank_row (r : list bytes) : bool :=
+  match r with [] => true | [[]] => true | _ => false end.
+
+(* one data row: the selected cells and whether some field was missing *)
+Fixpoint pick_cols (cols : list nat) (r : list bytes) : list bytes * bool :=
+  match cols with
+  | [] => ([], false)
+  | c :: cs =>
+      let '(line, bad) := pick_cols cs r in
+      match c with
+      | O => (line, bad || negb (blank_row r))
+      | S c' => match nth_error r c' with
+                | Some v => (v :: line, bad)
+                | None => (line, bad || negb (blank_row r))
+                end
+      end
+  end.
+
+Fixpoint table_data (cols : list nat) (rows : list (list bytes)) : list (list bytes) * bool :=
+  match rows with
+  | [] => ([], false)
+  | r :: rest =>
+      let '(line, bad) := pick_cols cols r in
+      let '(out, bad') := table_data cols rest in
+      ((match line with [] => out | _ => line :: out end), bad || bad')
+  end.
+
+Definition row_val (line : list bytes) : jval := JArr (map JStr line).
+
+Definition table_cols (names : list bytes) (rows : list (list bytes)) : Outcome out :=
+  match rows with
+  | [] => Ok (OutVal (JArr []))
+  | h :: rest =>
+      let cols := map (fun nm => heading_col nm h O O) names in
+      let line0 := filter (fun nm => negb (Nat.eqb (heading_col nm h O O) O)) names in
+      let '(data, bad) := table_data cols rest in
+      if bad then Err E_NOTFOUND
+      else Ok (OutVal (JArr (map row_val (match line0 with [] => data | _ => line0 :: data end))))
+  end.
+
+Definition special_param (p : bytes) : bool := existsb (fun b => (b =? 42)%N || (b =? 58)%N) p.   (* '*' ':' *)
+
 (* index() of jsonlines: all-digit parameters select rows (indexObject);
-   anything else is the table indexer, which is outside this model. *)
+   anything else is the table indexer. *)
 Definition jsonl_index (is_not : bool) (params : list bytes) (rows : list jval) : Outcome out :=
   if forallb all_digits params then
     obind (jsonl_line_numbers params) (fun ls =>
       Ok (OutVal (JArr (select_rows 0 (fun i => negb (Bool.eqb (zmem i ls) is_not)) rows))))
-  else Ok OutUnmodelled.
+  else if is_not || existsb special_param params then Ok OutUnmodelled
+  else match rows with
+       | [] => Ok (OutVal (JArr []))
+       | _ =>
+         if existsb is_arr rows then
+           match table_rows rows with
+           | Some t => table_cols params t
+           | None => Ok OutUnmodelled            (* mixed rows or nested cells *)
+           end
+         else Err E_NOTINDEXABLE                 (* a row that is not an array cannot be a table row *)
+       end.
 
 (* unmarshal(): rows that are all arrays give a [][]string table, which
    ElementLookup cannot walk; rows without any array give []any. *)
